@@ -121,7 +121,10 @@ func TestDecode(t *testing.T) {
 			t.Errorf("Decode(%q) = %+v, want %+v", in, d, want)
 		}
 	}
-	for _, in := range []string{"'s'", `a\**`, ""} {
+	if d := Decode(`a\\*`); d.Known || !d.KindOnly {
+		t.Errorf("escaped backslash followed by a live wildcard must be kind-only, got %+v", d)
+	}
+	for _, in := range []string{"'s'", ""} {
 		if Decode(in).Known {
 			t.Errorf("Decode(%q) should be unknown", in)
 		}
